@@ -9,7 +9,7 @@ for e in sorted(kf["known"], key=lambda e: e["id"]):
     what = e["what"].replace("|", "\\|")
     rows.append(f"| `{e['id']}` | {what[:230]}{'…' if len(what) > 230 else ''} |")
 tbl = "\n".join(rows)
-s = re.sub(r"<!-- BEGIN:known-table -->.*?<!-- END:known-table -->", "<!-- BEGIN:known-table -->\n" + tbl + "\n<!-- END:known-table -->", s, flags=re.S)
+s = re.sub(r"<!-- BEGIN:known-table -->.*?<!-- END:known-table -->", lambda m: "<!-- BEGIN:known-table -->\n" + tbl + "\n<!-- END:known-table -->", s, flags=re.S)
 rows = ["| seeded change | property | breaks | needs | caught before strengthening | detected by (quick tier) | what was strengthened |", "|---|---|---|---|---|---|---|"]
 for d in sorted(glob.glob(os.path.join(ROOT, "seeded", "*"))):
     mp = os.path.join(d, "meta.json")
@@ -24,6 +24,6 @@ for d in sorted(glob.glob(os.path.join(ROOT, "seeded", "*"))):
     esc = lambda x: str(x).replace("|", "\\|")
     rows.append(f"| `{m['id']}` | {m['property']} | {esc(m['breaks'])[:160]} | {esc(m['needs_to_manifest'])[:160]} | {'yes' if m.get('caught_before_strengthening') else 'no'} | {esc(det)[:170]} | {esc(m.get('strengthening_done',''))[:200]} |")
 tbl = "\n".join(rows)
-s = re.sub(r"<!-- BEGIN:seeded-table -->.*?<!-- END:seeded-table -->", "<!-- BEGIN:seeded-table -->\n" + tbl + "\n<!-- END:seeded-table -->", s, flags=re.S)
+s = re.sub(r"<!-- BEGIN:seeded-table -->.*?<!-- END:seeded-table -->", lambda m: "<!-- BEGIN:seeded-table -->\n" + tbl + "\n<!-- END:seeded-table -->", s, flags=re.S)
 open(os.path.join(ROOT, "DESIGN.md"), "w").write(s)
 print("tables regenerated")
